@@ -443,10 +443,14 @@ def one(rep, c, cfg):
                bool(fw) and every_return_passes(g, fw), "", g.loc())
 
         # state domain / who may touch sleep_state
+        # the task's own code runs only inside callback (and its closure) or while it is destroyed
         allowed_fns = {f.path}
-        cb = c.method("TaskState", "callback")
-        for cl in c.closures_of(cb):
-            allowed_fns.add(cl.path)
+        owners = [c.method("TaskState", "callback"), c.fn("TaskState as core::ops::Drop>::drop")]
+        for own in owners:
+            allowed_fns.add(own.path)
+            for cl in c.closures_of(own):
+                allowed_fns.add(cl.path)
+        sleepers = {cl.path for cl in c.closures_of(owners[0])}
         nsites = 0
         for h in c.fns.values():
             hops = sleep_ops(h)
@@ -454,7 +458,7 @@ def one(rep, c, cfg):
             if not hops and not nref:
                 continue
             nm = short(h)
-            rep.ob("R23.1", f"sleep_state touched only by callback's closure and wake_by_ref: {nm} {tag}",
+            rep.ob("R23.1", f"sleep_state touched only by callback, Drop for TaskState and wake_by_ref: {nm} {tag}",
                    h.path in allowed_fns, "another function reads or writes the sleep state", h.loc())
             rep.ob("R23.1", f"every reference to sleep_state in {nm} feeds a recognised atomic operation {tag}",
                    nref == len(hops), f"{nref} reference(s), {len(hops)} atomic operation(s)", h.loc())
@@ -463,8 +467,9 @@ def one(rep, c, cfg):
                 if m == "load":
                     continue
                 rep.ob("R23.1", f"sleep_state.{m}({names.get(val, 'other')}) in {nm} writes a SLEEP_STATE constant {tag}",
-                       m in ("store", "swap") and val in names,
-                       f"{m}({val}) is not a store/swap of POLLING/WOKEN/SLEEPING", h.loc(call.bb))
+                       m in ("store", "swap") and val in names and (val != SLEEPING or h.path in sleepers),
+                       f"{m}({val}) is not a store/swap of POLLING/WOKEN (or of SLEEPING inside callback's closure)",
+                       h.loc(call.bb))
         rep.floor("R23.1", f"atomic operations on sleep_state {tag}", nsites, 5)
         # initial value
         nw = c.method("TaskState", "new")
@@ -574,13 +579,20 @@ def one(rep, c, cfg):
         rep.saw(d)
         dc = d.call_blocks(CANCEL_FN)
         rep.floor("R23.4", f"cancel_inter_task_stream_read sites in Drop for TaskState {tag}", len(dc), 1)
-        others = [x for x in d.calls() if x.bb not in dc and not A_ANY.search(x.callee) and
-                  not x.matches(["Deref::deref"])]
-        late = [x for x in others if not d.set_dominates(set(dc), x.bb)]
-        rep.ob("R23.4", f"Drop for TaskState: the cancel comes before every other call {tag}",
+        # everything that can run the task's futures / destructors: the p3-task scope, indirect calls, explicit drops
+        sinks = [(x.bb, mir.norm(x.callee).split("::")[-1]) for x in d.calls()
+                 if x.ind is not None or x.matches(["TaskState::with_p3_task_set", "mem::drop", "mem::take", "mem::replace",
+                                                    "ptr::drop_in_place", "ManuallyDrop::drop"])]
+        sinks += [(b, "drop " + t["ty"].split("<")[0].split("::")[-1]) for b, t in d.drops()]
+        for cl in c.closures_of(d):
+            rep.saw(cl)
+            rep.ob("R23.4", f"Drop for TaskState: closures do not start or cancel reads themselves {tag}",
+                   not cl.calls([READ_FN]), "", cl.loc())
+        late = [(b, n) for b, n in sinks if not d.set_dominates(set(dc), b)]
+        rep.floor("R23.4", f"points in Drop for TaskState that run destructors {tag}", len(sinks), 1)
+        rep.ob("R23.4", f"Drop for TaskState: the cancel comes before the futures are dropped and on every path {tag}",
                bool(dc) and not late and every_return_passes(d, dc),
-               f"calls not preceded by the cancel: {[mir.norm(x.callee).split('::')[-1] for x in late]}",
-               d.loc(late[0].bb) if late else d.loc())
+               f"not preceded by the cancel: {[n for _, n in late]}", d.loc(late[0][0]) if late else d.loc())
     rep.guard("R23.4", f"callback/drop {tag}", r4)
 
     # ------------------------------------------------------------------ R23.5a deliver_waitable_event (all configs)
